@@ -421,20 +421,10 @@ fn check_c10(case: &Case) -> Verdict {
             return v;
         }
     }
-    // ---- the answer itself (as C02)
+    // (the answer itself is C02's business; what is needed here is the lazy std evaluation to compare the work with)
     let src = src_for(case, &r);
     let p = pred_of(&r.term);
     let lazy = lazy_find(case, src.clone(), p.map(|x| x.0), p.map(|x| x.1).unwrap_or(false));
-    let expected = expected_short(&r.term, lazy.found);
-    if let Ok(got) = &r.out {
-        if *got != expected {
-            v.fail = Some(Verdict::fail(
-                format!("{} returned {:?}, expected {:?}", r.term.name(), got, expected),
-                generic_sig(case, "value"),
-            ));
-            return v;
-        }
-    }
     let from = r.term_start.min(r.log.len());
     // ---- sequential clause: exactly the lazy std evaluation
     if case.is_sequential() {
@@ -449,29 +439,28 @@ fn check_c10(case: &Case) -> Verdict {
                 extra: e.extra,
             })
             .collect();
-        if got != lazy.log {
-            let i = got.iter().zip(lazy.log.iter()).position(|(a, b)| a != b).unwrap_or(got.len().min(lazy.log.len()));
-            v.fail = Some(Verdict::fail(
-                format!(
-                    "sequential mode evaluated {} closure calls, the lazy std chain {}; first difference at call {}",
-                    got.len(),
-                    lazy.log.len(),
-                    i
-                ),
-                generic_sig(case, "seq-evaluates-beyond-match"),
-            ));
-            return v;
+        // "no element beyond the first match is evaluated": every call made is one the lazy std chain makes too
+        // (order and completeness of the calls before the match are C09's business)
+        let mut allowed: std::collections::BTreeMap<MEv, usize> = Default::default();
+        for e in &lazy.log {
+            *allowed.entry(*e).or_default() += 1;
         }
-        if endless || !case.source.known_len() {
-            // nothing beyond the elements std pulled may be asked from a by-value iterator either
-            let asked = r.log[from..].iter().filter(|e| e.kind == Kind::SrcEnter).count();
-            let need = lazy.found.map(|x| x.1 + 1).unwrap_or(src.len() + 1);
-            if case.source.is_instrumented_iter() && asked > need {
-                v.fail = Some(Verdict::fail(
-                    format!("sequential mode asked the source for {asked} elements, the lazy std chain needs {need}"),
-                    generic_sig(case, "seq-pulls-beyond-match"),
-                ));
-                return v;
+        for e in &got {
+            match allowed.get_mut(e) {
+                Some(n) if *n > 0 => *n -= 1,
+                _ => {
+                    v.fail = Some(Verdict::fail(
+                        format!(
+                            "sequential mode evaluated {} closure calls, the lazy std chain {}: a call beyond the first match (stage {}, predicate: {})",
+                            got.len(),
+                            lazy.log.len(),
+                            e.stage,
+                            e.pred
+                        ),
+                        generic_sig(case, "seq-evaluates-beyond-match"),
+                    ));
+                    return v;
+                }
             }
         }
         v.nontrivial = lazy.found.map(|x| x.1 + 1 < src.len() || endless).unwrap_or(false) && !case.chain.is_empty();
